@@ -225,7 +225,7 @@ def run_tlc(module, cfg, workers=16, extra=(), timeout=3600, env=None, coverage=
         if m:
             r.violation = m.group(1)
         if coverage:
-            for m in re.finditer(r"<(\w+) line \d+, col \d+ to line \d+, col \d+ of module \w+>: (\d+):(\d+)",
+            for m in re.finditer(r"<(\w+) line \d+, col \d+ to line \d+, col \d+ of module \w+(?: \([\d ]+\))?>: (\d+):(\d+)",
                                  p.stdout):
                 nm = m.group(1)
                 d, t = int(m.group(2)), int(m.group(3))
